@@ -39,7 +39,7 @@ def run_witness(prop, tier):
     env = dict(os.environ)
     env['VERIF_TIER'] = tier
     try:
-        p = subprocess.run([exe, prop], capture_output=True, text=True, timeout=600, env=env,
+        p = subprocess.run([exe, prop], capture_output=True, text=True, errors='replace', timeout=600, env=env,
                            cwd=os.path.join(VERIF, '.work'))
     except subprocess.TimeoutExpired:
         return {'error': 'witness run timed out', 'cases': 0, 'failing': []}
